@@ -104,6 +104,10 @@ type In struct {
 	BadCookie bool // a cookie the server never issued: any reply is acceptable
 	Dircnt uint64
 	Maxcnt uint64
+	// crash histories (conc engine): the operation had not returned when the disk
+	// was cut off / the operation observes the recovered server
+	Pending   bool
+	PostCrash bool
 }
 
 // Out is a reply.
